@@ -946,12 +946,99 @@ def r02_7(ctx, counts) -> RuleResult:
     return res
 
 
+def r02_8(ctx, counts: dict[str, int]) -> RuleResult:
+    """an explicit-stack traversal restores every per-level variable it re-initialises"""
+    model: Model = ctx.model
+    res = RuleResult(
+        'R02.8', 'EXPLICIT-STACK-STATE-COMPLETE',
+        'The tree walks of the package are iterative: a `while` loop with explicit stacks (a local '
+        'list with `.append(..)` and `.pop()` inside the loop). In the block that pushes (the '
+        'descent into a child) some locals are re-initialised for the new level — the iterator '
+        'over the children, the parent, per-level counters. Every such local that is also read '
+        'elsewhere in the loop is loop-carried per-level state and must be assigned again in a '
+        'block that pops (directly, from a tuple unpacking of the popped frame, or inside the '
+        'try around the pop): otherwise the parent level continues with the value of the child '
+        'level (an iterative etree_iter_paths that saved (children, path, pi_nodes, positions) '
+        'and not comment_nodes numbered the comments after a nested element from the child\'s '
+        'count).')
+
+    def blocks(node: ast.AST):
+        for n_ in ast.walk(node):
+            for fld in ('body', 'orelse', 'finalbody'):
+                b = getattr(n_, fld, None)
+                if isinstance(b, list) and b and isinstance(b[0], ast.stmt):
+                    yield b
+
+    def flat(block: list[ast.stmt]):
+        for st in block:
+            yield st
+            if isinstance(st, ast.Try):
+                yield from flat(st.body)
+
+    def assigned(block: list[ast.stmt]) -> set[str]:
+        out: set[str] = set()
+        for st in flat(block):
+            if isinstance(st, (ast.Assign, ast.AugAssign, ast.AnnAssign)):
+                for t in (st.targets if isinstance(st, ast.Assign) else [st.target]):
+                    out |= {y.id for y in ast.walk(t)
+                            if isinstance(y, ast.Name) and isinstance(y.ctx, ast.Store)}
+        return out
+    n = 0
+    for f in sorted(model.all_functions(), key=lambda q: q.key):
+        if '.validators' in f.module.name:
+            continue
+        for w in walk_local(f.node):
+            if not isinstance(w, ast.While):
+                continue
+            pops: dict[str, list] = {}
+            pushes: dict[str, list] = {}
+            for b in blocks(w):
+                for st in flat(b):
+                    if isinstance(st, (ast.If, ast.For, ast.While, ast.Try, ast.With)):
+                        continue
+                    for c in ast.walk(st):
+                        if isinstance(c, ast.Call) and isinstance(c.func, ast.Attribute) \
+                                and isinstance(c.func.value, ast.Name):
+                            if c.func.attr == 'pop' and not c.args:
+                                pops.setdefault(c.func.value.id, []).append(b)
+                            elif c.func.attr == 'append':
+                                pushes.setdefault(c.func.value.id, []).append(b)
+            stacks = set(pops) & set(pushes)
+            for s_ in sorted(stacks):
+                for pb in pushes[s_]:
+                    n += 1
+                    a = assigned(pb) - stacks
+                    restored: set[str] = set()
+                    for qb in pops[s_]:
+                        restored |= assigned(qb)
+                    inside = {id(x) for st in pb for x in ast.walk(st)}
+                    carried = {y.id for y in ast.walk(w) if isinstance(y, ast.Name)
+                               and isinstance(y.ctx, ast.Load) and id(y) not in inside}
+                    missing = sorted((a & carried) - restored)
+                    res.instances.append(f'{f.key}: stack `{s_}` (while at L{w.lineno}): the push '
+                                         f'block re-initialises {sorted(a)}, the pop blocks '
+                                         f'restore {sorted(restored)}; not restored: {missing}')
+                    if not missing:
+                        res.ok()
+                    else:
+                        res.fail(finding('R02.8', f, pb[0], f'{s_}: {missing[0]} not restored',
+                                         f'the descent that pushes on `{s_}` re-initialises '
+                                         f'{", ".join(missing)} for the new level, the loop reads '
+                                         f'it elsewhere, and no block that pops `{s_}` assigns it '
+                                         f'again: after returning from a child the parent level '
+                                         f'continues with the child\'s value'))
+    counts['explicit_stack_pushes'] = n
+    if n < 8:
+        raise AnalysisError(f'explicit-stack traversals located: {n} < 8')
+    return res
+
+
 def run(ctx) -> dict:
     global _MODEL
     _MODEL = ctx.model
     counts: dict[str, int] = {}
     results = [r02_1(ctx, counts), r02_2(ctx, counts), r02_3(ctx, counts), r02_4(ctx, counts),
-               r02_5(ctx, counts), r02_7(ctx, counts)]
+               r02_5(ctx, counts), r02_7(ctx, counts), r02_8(ctx, counts)]
     from .c05_purity import r05_8
     r6 = r05_8(ctx, counts)
     r6.title = 'NO-MEMO-OF-LAZY-SNAPSHOT (R02.6 = R05.9)'
